@@ -78,6 +78,7 @@ type entry struct {
 	SHA      string // of decompressed content ("" for unknown)
 	Comment  string
 	ExtraHex string
+	End      int64 // first byte behind header, data and descriptor; 0 = unknown
 }
 
 func sha(b []byte) string { h := sha256.Sum256(b); return hex.EncodeToString(h[:]) }
@@ -155,6 +156,14 @@ func relicEntries(d *zipslicer.Directory, readContent bool) ([]entry, error) {
 			e.DataOff = int64(f.Offset) + int64(len(lh))
 		}
 		e.CRC = f.CRC32 // after reading: descriptor CRC is filled in
+		if readContent {
+			// the extent relic works with when it moves, truncates or appends behind members
+			size, err := f.GetTotalSize()
+			if err != nil {
+				return nil, fmt.Errorf("%q: total size: %w", f.Name, err)
+			}
+			e.End = int64(f.Offset) + size
+		}
 		out = append(out, e)
 	}
 	return out, nil
@@ -218,6 +227,8 @@ func diff(what string, got, want []entry) string {
 			return fmt.Sprintf("%s: member %q content differs", what, g.Name)
 		case g.Comment != w.Comment:
 			return fmt.Sprintf("%s: member %q comment %q want %q", what, g.Name, g.Comment, w.Comment)
+		case g.End > 0 && w.End > 0 && g.End != w.End:
+			return fmt.Sprintf("%s: member %q ends at %d (header, data and descriptor), really at %d", what, g.Name, g.End, w.End)
 		}
 	}
 	return ""
@@ -227,7 +238,7 @@ func layoutEntries(s *zipgen.Spec, a *zipgen.Archive) []entry {
 	var out []entry
 	for _, i := range a.CDOrder {
 		m, l := s.Members[i], a.Layout[i]
-		e := entry{Name: m.Name, Offset: l.LocalHeaderOffset, DataOff: l.DataOffset, CSize: l.CompressedSize, USize: l.UncompressedSize, CRC: l.CRC32, Method: l.Method, Comment: m.Comment}
+		e := entry{Name: m.Name, Offset: l.LocalHeaderOffset, DataOff: l.DataOffset, CSize: l.CompressedSize, USize: l.UncompressedSize, CRC: l.CRC32, Method: l.Method, Comment: m.Comment, End: l.EndOffset}
 		if !m.IsDir {
 			e.SHA = sha(m.Data)
 		} else {
@@ -256,6 +267,17 @@ func hasSigless(s *zipgen.Spec) bool {
 func hasDesc64OnEmpty(s *zipgen.Spec) bool {
 	for _, m := range s.Members {
 		if (m.Descriptor == zipgen.Desc64Sig) && (m.IsDir || len(m.Data) == 0) {
+			return true
+		}
+	}
+	return false
+}
+
+// desc64EmptyExtent: is the difference d the extent of an empty member with a 24-byte
+// descriptor (the listed finding), and nothing else?
+func desc64EmptyExtent(s *zipgen.Spec, d string) bool {
+	for _, m := range s.Members {
+		if m.Descriptor == zipgen.Desc64Sig && (m.IsDir || len(m.Data) == 0) && strings.Contains(d, fmt.Sprintf("member %q ends at", m.Name)) {
 			return true
 		}
 	}
@@ -369,7 +391,8 @@ func TestC17_ReadAgrees(t *testing.T) {
 				fail(t, test, s, data, "random-access read", "relic refuses a valid archive: %v", err)
 			}
 		} else if d := diff("zipslicer.Read", got, want); d != "" {
-			fail(t, test, s, data, "random-access read", "%s", d)
+			// listed finding: the extent of an empty member with a 24-byte descriptor
+			knownOr(t, test, s, data, kDesc64Empty, desc64EmptyExtent(s, d), "random-access read", "%s", d)
 		}
 		// single-pass streaming
 		got, err = relicStream(path)
@@ -385,7 +408,7 @@ func TestC17_ReadAgrees(t *testing.T) {
 				fail(t, test, s, data, "streaming read", "relic refuses a valid archive: %v", err)
 			}
 		} else if d := diff("zipslicer.ReadZipTar", got, want); d != "" {
-			fail(t, test, s, data, "streaming read", "%s", d)
+			knownOr(t, test, s, data, kDesc64Empty, desc64EmptyExtent(s, d), "streaming read", "%s", d)
 		}
 	})
 }
